@@ -101,6 +101,38 @@ pub fn minimise(original: &Scenario, first: &Violation, limit: Duration) -> Mini
                 c += 1;
             }
         }
+        // 3a. long scripts: cut everything after the failing op, then drop chunks of ops
+        for c in 0..best.clients.len() {
+            if best.clients[c].len() <= 12 {
+                continue;
+            }
+            if best_v.client == c && best_v.op != usize::MAX && best_v.op + 1 < best.clients[c].len() {
+                let mut cand = best.clone();
+                cand.clients[c].truncate(best_v.op + 1);
+                if let Some(v) = fails(&cand, &class, &mut tried) {
+                    best = cand;
+                    best_v = v;
+                    progress = true;
+                }
+            }
+            let mut chunk = best.clients[c].len() / 2;
+            while chunk >= 2 && t0.elapsed() < limit {
+                let mut i = 0;
+                while i + chunk <= best.clients[c].len() && t0.elapsed() < limit {
+                    let mut cand = best.clone();
+                    cand.clients[c].drain(i..i + chunk);
+                    if let Some(v) = fails(&cand, &class, &mut tried) {
+                        best = cand;
+                        best_v = v;
+                        progress = true;
+                    } else {
+                        i += chunk;
+                    }
+                }
+                chunk /= 2;
+            }
+            best = gc_sources(&best);
+        }
         // 3. drop ops, last first
         for c in 0..best.clients.len() {
             let mut i = best.clients[c].len();
